@@ -64,6 +64,43 @@ fn gc_released_and_held() { gc_kernel(false, false, false) }
 #[kani::unwind(4)]
 fn gc_all_released() { gc_kernel(false, true, false) }
 
+/// C10: ids released in ONE batch of which an earlier one takes a later one down with it (a parent released before its
+/// child; one entity prepared twice): the collector ignores what is already gone by the time it gets there - no panic - and
+/// still despawns whatever was released behind it.
+fn gc_batch_kills_later_id(twice: bool)
+{
+    let mut world = World::new();
+    world.m_drop_table::<(Tag, Parent, Children)>();
+    let d = AutoDespawner::new();
+    world.insert_resource(d.clone());
+    let parent = world.spawn_empty().id();
+    let child = world.spawn_empty().id();
+    m_link(&mut world, parent, child);
+    let bystander = world.spawn_empty().id();
+    let sp = d.prepare(parent);
+    let sc = if twice { d.prepare(parent) } else { d.prepare(child) };
+    let sb = d.prepare(bystander);
+    drop(sp); drop(sc); drop(sb);      // one batch: parent, then (child | parent again), then an unrelated entity
+    garbage_collect_entities(&mut world);
+    assert!(!world.m_alive(parent) && !world.m_alive(child), "C10: released entities and their descendants are gone");
+    assert!(!world.m_alive(bystander), "C10: an id that is already gone by the time the collector reaches it is ignored, and everything released behind it is still collected by this first collection");
+    let despawns = world.m_despawns;
+    garbage_collect_entities(&mut world);
+    assert!(world.m_despawns == despawns, "C10: idempotent");
+    kani::cover!(true, "end reached");
+    std::mem::forget(world);
+}
+#[kani::proof]
+#[kani::stub(core::any::TypeId::of, crate::vh::stub_typeid_of)]
+#[kani::stub(<core::any::TypeId as crate::vh::PEq>::eq, crate::vh::stub_typeid_eq)]
+#[kani::unwind(5)]
+fn gc_parent_then_child_in_one_batch() { gc_batch_kills_later_id(false) }
+#[kani::proof]
+#[kani::stub(core::any::TypeId::of, crate::vh::stub_typeid_of)]
+#[kani::stub(<core::any::TypeId as crate::vh::PEq>::eq, crate::vh::stub_typeid_eq)]
+#[kani::unwind(5)]
+fn gc_entity_prepared_twice() { gc_batch_kills_later_id(true) }
+
 /// C10 / C07: one entity, the original signal and two clones, dropped in a concrete order (one query per order):
 /// nothing is receivable while a holder exists; after the last drop exactly one message, that entity.
 fn refcount_order(order: [usize; 3])
